@@ -27,6 +27,12 @@ def runFormulaCase (line : String) : String :=
   | ["parse", s] =>
     let s := parseCps s
     showEntsRes (parseFormula drvCC T s) ++ "\t" ++ showFVerdict (Spec.specFormula drvCC T s)
+  | ["parsewith", syms, s] =>
+    -- a caller-supplied table: the listed symbols of the compiled one
+    let keep : List Sym := if syms == "-" then [] else (syms.splitOn ",").map (fun w => w.toList.map Char.toNat)
+    let T' := T.filter (fun e => keep.contains e.sym)
+    let s := parseCps s
+    showEntsRes (parseFormula drvCC T' s) ++ "\t" ++ showFVerdict (Spec.specFormula drvCC T' s)
   | ["display", form, pairs] =>
     match parseForm form, parsePairs pairs with
     | some f, some ps =>
